@@ -7,12 +7,67 @@
 
 namespace etl {
 
+namespace detail {
+
+struct ratio_sum {
+    intmax_t num;
+    intmax_t den;
+};
+
+/// \brief n1/d1 + n2/d2 for two fractions in lowest terms with positive
+/// denominators. The result is in lowest terms; no intermediate value is larger
+/// in magnitude than the numerator or the denominator of the result (or than
+/// an operand), so an overflow (which is not a constant expression) only
+/// occurs if the sum is not representable.
+[[nodiscard]] constexpr auto ratio_add_impl(intmax_t n1, intmax_t d1, intmax_t n2, intmax_t d2) noexcept -> ratio_sum
+{
+    auto const g = gcd(d1, d2);
+    auto const a = d1 / g;
+    auto const b = d2 / g;
+
+    // n == i * d + f with 0 <= f < d
+    auto const i1 = n1 % d1 < 0 ? n1 / d1 - 1 : n1 / d1;
+    auto const f1 = n1 % d1 < 0 ? n1 % d1 + d1 : n1 % d1;
+    auto const i2 = n2 % d2 < 0 ? n2 / d2 - 1 : n2 / d2;
+    auto const f2 = n2 % d2 < 0 ? n2 % d2 + d2 : n2 % d2;
+
+    // f1/d1 + f2/d2 == (f1 * b + f2 * a) / (g * a * b). The numerator is
+    // coprime to a and to b, the fraction reduces by g2 = gcd(numerator, g).
+    auto const m1 = (f1 % g) * b % g;
+    auto const m2 = (f2 % g) * a % g;
+    auto const m  = m1 >= g - m2 ? m1 - (g - m2) : m1 + m2;
+    auto const g2 = gcd(m, g);
+
+    auto const den = (d1 / g2) * b;
+
+    // (f1 * b + f2 * a) / g2 == x + y + c
+    auto const x = (f1 / g2) * b + (f1 % g2) * b / g2;
+    auto const y = (f2 / g2) * a + (f2 % g2) * a / g2;
+    auto const c = (f1 % g2) * b % g2 != 0 ? intmax_t(1) : intmax_t(0);
+
+    // i * den + f with 0 <= f <= den
+    auto const carry = x >= den - y;
+    auto const f     = carry ? x - (den - y) + c : x + y + c;
+    auto const i     = carry ? i1 + i2 + 1 : i1 + i2;
+
+    return {i >= 0 ? i * den + f : (i + 1) * den - (den - f), den};
+}
+
+template <typename R1, typename R2>
+struct ratio_add_type {
+    static constexpr auto sum = ratio_add_impl(R1::num, R1::den, R2::num, R2::den);
+
+    using type = typename ratio<sum.num, sum.den>::type;
+};
+
+} // namespace detail
+
 /// \brief The alias template ratio_add denotes the result of adding two
 /// exact rational fractions represented by the ratio specializations R1
 /// and R2.
 /// \ingroup ratio
 template <typename R1, typename R2>
-using ratio_add = typename ratio<R1::num * R2::den + R2::num * R1::den, R1::den * R2::den>::type;
+using ratio_add = typename detail::ratio_add_type<R1, R2>::type;
 
 } // namespace etl
 
